@@ -23,6 +23,16 @@ from . import oracle as O
 SUP = {2: '²', 3: '³', 4: '⁴', 5: '⁵', 6: '⁶', 7: '⁷', 8: '⁸', 9: '⁹'}
 
 
+class SetupRejected(Exception):
+    """A declaration that the harness's model says is valid was rejected by
+    the library while a world was being set up."""
+
+    def __init__(self, ev, res):
+        Exception.__init__(self, f"valid declaration {ev} raised {res[1]}: "
+                           f"{res[2] if len(res) > 2 else ''}")
+        self.ev, self.res = ev, res
+
+
 class TypeM:
     def __init__(self, name, dim, ref, quantum, base):
         self.name, self.dim, self.ref, self.quantum, self.base = \
@@ -303,6 +313,13 @@ class World:
                     exc.args and exc.args[0] in (ev[2],):
                 raise
             return ('exc', type(exc).__name__, str(exc)[:120])
+
+    def must(self, ev):
+        """apply a set-up declaration that has to succeed"""
+        res = self.apply(ev)
+        if res[0] != 'ok':
+            raise SetupRejected(ev, res)
+        return res[1]
 
     # -- model updates (only after the real declaration succeeded) ------------
     def _model_type(self, name, dim, ref, quantum, base, definition,
